@@ -275,9 +275,11 @@ class AstToSqlVisitor(visitor.NodeVisitor):
         try:
             # Grammar has already validated that the function is valid OData,
             # but that doesn't guarantee we can represent it in SQL:
-            sql_gen = getattr(self, "sqlfunc_" + node.func.name.lower())
+            # Use the full name, so `geo.length` is not mistaken for `length`:
+            func_name = node.func.full_name().replace(".", "__")
+            sql_gen = getattr(self, "sqlfunc_" + func_name.lower())
         except AttributeError:
-            raise exceptions.UnsupportedFunctionException(node.func.name)
+            raise exceptions.UnsupportedFunctionException(node.func.full_name())
 
         return sql_gen(*node.args)
 
